@@ -24,12 +24,12 @@ def run(ctx):
     r = sh(["python3", os.path.join(VERIF, "tools", "gen_locks.py")])
     ctx.log(r.stdout.strip() or r.stderr.strip())
     if r.returncode != 0:
-        violation(ctx, "the lock-nesting translator could not classify the source: " + (r.stdout + r.stderr)[-400:],
-                  "# translator tools/gen_locks.py failed; theorem Feox.C18.lock_order_acyclic cannot be re-checked\n" + r.stdout + r.stderr, no_input=True, tag="locks")
+        violation(ctx, "the lock-nesting translator could not classify the source: " + ((r.stdout or "") + (r.stderr or ""))[-400:],
+                  "# translator tools/gen_locks.py failed; theorem Feox.C18.lock_order_acyclic cannot be re-checked\n" + (r.stdout or "") + (r.stderr or ""), no_input=True, tag="locks")
     r = sh(["python3", os.path.join(VERIF, "tools", "gen_loops.py")])
     ctx.log(r.stdout.strip() or r.stderr.strip())
     if r.returncode != 0:
-        violation(ctx, "the retry-loop translator could not read the final-flush loop: " + (r.stdout + r.stderr)[-400:],
-                  "# translator tools/gen_loops.py failed; theorem Feox.C18.final_flush_terminates cannot be re-checked\n" + r.stdout + r.stderr, no_input=True, tag="loops")
+        violation(ctx, "the retry-loop translator could not read the final-flush loop: " + ((r.stdout or "") + (r.stderr or ""))[-400:],
+                  "# translator tools/gen_loops.py failed; theorem Feox.C18.final_flush_terminates cannot be re-checked\n" + (r.stdout or "") + (r.stderr or ""), no_input=True, tag="loops")
     return conc_check(ctx, MODULE, THEOREMS, ['C18', 'C07'], "termination", ASSUME,
                       extra_quick=('cases=60', 'races=6', 'contend=25'), extra_thorough=('cases=1500', 'races=80', 'contend=600'), rule=RULE)
